@@ -98,6 +98,13 @@ CHECKS["C05"] = dict(text="On recorded KernelPCovR fits (kernels linear, rbf, po
     "route registers: linear kernel = sample-space PCovR with the equivalent ridge, named kernel = precomputed, center=True = explicit "
     "KernelNormalizer, mixing=1 = kernel PCA up to sign and the normaliser's scale.", ref="6/C05",
     tech="TLC evaluates the documented loss, centring law and eigen-certificate of the TLA+ specification on recorded fits; route registers")
+CHECKS["C10"] = dict(text="TLC enumerates the configuration matrix (2 methods x 2 alpha types x 3 scorers x 4 fold kinds x n_jobs = 96) and each configuration is "
+    "replayed on lattice data (full rank, rank-deficient, duplicated columns, wide); for every alpha and fold a witness model is verified by the "
+    "specification through its defining equations (Tikhonov normal equations; cut-off in a verified eigenbasis), the specification then predicts the "
+    "other fold, scores it as sklearn's multi-output scorers do (roots / quotients as verified witnesses) and compares with cv_values_; alpha_ must be "
+    "a best grid value, coef_ the regularised full-data solution with nothing in the numerical null space, predict = X coef_^T; relative alphas are "
+    "checked against verified top singular values.", ref="6/C10",
+    tech="TLC-enumerated configurations replayed in the code; TLC verifies witnesses by defining equations and recomputes the cross-validation values")
 NA = {}
 def main():
     props = [json.loads(l)["id"] for l in open(os.path.join(HERE, "properties.jsonl"))]
